@@ -1,6 +1,7 @@
 #![allow(dead_code)]
 #![allow(clippy::type_complexity)]
 
+mod c01;
 mod c02;
 mod c03;
 mod c04;
@@ -13,6 +14,8 @@ mod c12;
 mod c15;
 mod gen;
 mod c13;
+mod c14;
+mod c17;
 mod common;
 mod e3;
 mod fmt06;
@@ -59,6 +62,7 @@ fn main() {
             "fault" => c04::replay(case),
             k if k.starts_with("c11-") => c11::replay(case),
             "c08" => c08::replay(case),
+            "c01" => c01::replay(case),
             "c12" => c12::replay(case),
             "c15" => c15::replay(case),
             "delete" => c05::replay(case),
@@ -73,6 +77,9 @@ fn main() {
             "hist" => match case["rider"].as_str().unwrap_or("") {
                 "C02" => c02::replay(case),
                 "C07" => c07::replay_hist(case),
+                "C13" => c13::replay_hist(case),
+                "C14" => c14::replay_hist(case),
+                "C17" => c17::replay(case),
                 r => {
                     eprintln!("unknown history rider {r:?}");
                     std::process::exit(2);
@@ -116,6 +123,7 @@ fn main() {
     }
     let budget = budget_for(tier);
     match id {
+        "C01" => c01::run(&report, &budget),
         "C02" => c02::run(&report, &budget),
         "C03" => c03::run(&report, &budget),
         "C04" => c04::run(&report, &budget),
@@ -125,7 +133,10 @@ fn main() {
         "C08" => c08::run(&report, &budget),
         "C11" => c11::run(&report, &budget),
         "C12" => c12::run(&report, &budget),
+        "C13" => c13::run(&report, &budget),
+        "C14" => c14::run(&report, &budget),
         "C15" => c15::run(&report, &budget),
+        "C17" => c17::run(&report, &budget),
         _ => {
             eprintln!("unknown property {id}");
             std::process::exit(2);
